@@ -6,6 +6,7 @@ package vlib
 
 import (
 	"bufio"
+	"bytes"
 	"encoding/json"
 	"flag"
 	"fmt"
@@ -448,6 +449,8 @@ type workerState struct {
 	crashes     int
 }
 
+var raceReports int
+
 func runDriver(chk *Check, env *Env, nw int, only int) int {
 	start := time.Now()
 	self, _ := os.Executable()
@@ -486,6 +489,10 @@ func runDriver(chk *Check, env *Env, nw int, only int) int {
 				cmd.Stderr = ef
 				cmd.Stdout = ef
 				cmd.Env = append(os.Environ(), "VERIF_SEED="+strconv.FormatUint(env.Seed, 10), "VERIF_SCRATCH="+env.Scratch, "VERIF_TIER="+env.Tier)
+				if env.Race {
+					// the first report ends the worker: it is then attributed to the journal's last case
+					cmd.Env = append(cmd.Env, "GORACE=halt_on_error=1 exitcode=66")
+				}
 				runErr := cmd.Run()
 				ef.Close()
 				done := workerDone(ws.out)
@@ -511,6 +518,17 @@ func runDriver(chk *Check, env *Env, nw int, only int) int {
 					key := "crash"
 					if ekey != "" {
 						key = "crash:" + ekey
+					}
+					if all, _ := os.ReadFile(ws.errPath); bytes.Contains(all, []byte("WARNING: DATA RACE")) {
+						key = "data-race"
+						raceReports++
+						if i := bytes.Index(all, []byte("WARNING: DATA RACE")); i >= 0 {
+							end := i + 3000
+							if end > len(all) {
+								end = len(all)
+							}
+							tail = string(all[i:end])
+						}
 					}
 					agg.Violations = append(agg.Violations, Violation{Key: key, Msg: "worker process died: " + crashSummary(tail), Detail: map[string]any{"input": edesc, "exit": fmt.Sprint(runErr), "stderr": lastLines(tail, 60)}, Idx: idx})
 				}
@@ -761,10 +779,17 @@ func report(chk *Check, env *Env, agg *Aggregate, ncases int, wall time.Duration
 		"wall_s":      wall.Seconds(),
 		"violations":  nviol,
 	}
+	if env.Race {
+		ev["sanitizer"] = map[string]any{"kind": "go race detector (-race, GORACE=halt_on_error=1)", "reports": raceReports}
+	}
 	if !env.Replay {
 		_ = os.MkdirAll(filepath.Join(env.Root, "evidence"), 0o755)
 		b, _ := json.MarshalIndent(ev, "", " ")
-		_ = os.WriteFile(filepath.Join(env.Root, "evidence", chk.ID+".json"), append(b, '\n'), 0o644)
+		name := chk.ID + ".json"
+		if env.Race {
+			name = chk.ID + ".race.json" // the sanitizer pass keeps its own evidence next to the plain run's
+		}
+		_ = os.WriteFile(filepath.Join(env.Root, "evidence", name), append(b, '\n'), 0o644)
 	}
 	fmt.Printf("%s %s seed=%d: cases=%d evaluations=%d distinct_nontrivial=%d violations=%d known=%d wall=%.1fs\n", chk.ID, env.Tier, env.Seed, agg.Cases, agg.Evals, len(agg.Keys), nviol, knownSeen, wall.Seconds())
 	if nviol > 0 {
